@@ -197,6 +197,13 @@ theorem wpD_mono {env : Env} {Q : FS → Prop} {P1 P2 : α → FS → Prop} {p :
   | done a => exact ⟨h.1, hm _ _ h.2⟩
   | sys c k ih => exact ⟨h.1, h.2.1, fun fs' r hs => ih r (h.2.2 fs' r hs)⟩
 
+/-- The crash condition holds in particular at the end, so it may be assumed in the postcondition. -/
+theorem wpD_withQ {env : Env} {Q : FS → Prop} {Post : α → FS → Prop} {p : Prog α} {fs : FS}
+    (h : wpD env Q Post p fs) : wpD env Q (fun a fs' => Q fs' ∧ Post a fs') p fs := by
+  induction p generalizing fs with
+  | done a => exact ⟨h.1, h.1, h.2⟩
+  | sys c k ih => exact ⟨h.1, h.2.1, fun fs' r hs => ih r (h.2.2 fs' r hs)⟩
+
 theorem wpD_bind {env : Env} {Q : FS → Prop} {Post : β → FS → Prop} {p : Prog α}
     {f : α → Prog β} {fs : FS}
     (h : wpD env Q (fun a fs' => wpD env Q Post (f a) fs') p fs) :
